@@ -68,6 +68,7 @@ def _history_alphabet():
     ms = list(sp.structures_upto(3))
     ms.append(cm.on_carrier([('REQUIRES', 'x', 'y')]))
     ms.append(cm.on_carrier([('AND', 'x', ('OR', 'y', 'z')), ('EXCLUDES', 'x', 'z')]))
+    ms.append(cm.on_carrier([('IMPLIES', 'x', ('EQUIVALENCE', 'y', 'z')), ('NOT', ('XOR', 'x', 'z'), None)]))
     ms.append(_flagged(sh.M(sh.F('Fa', [sh.R(1, 2, [sh.F('Bb'), sh.F('Dc')]), sh.R(1, 1, [sh.F('Ad')])])), {'Fa', 'Dc'}))
     return ms
 
@@ -113,11 +114,11 @@ def cases(tier, seed):
     # histories on one object
     alpha = _history_alphabet()
     if tier == 'quick':
-        alpha = alpha[:4] + alpha[-3:] + alpha[10:14]
+        alpha = alpha[:4] + alpha[-4:] + alpha[10:14]
     maxlen = 2 if tier == 'quick' else 3
     for length in range(2, maxlen + 1):
         if length == 3:
-            sub = alpha[:4] + alpha[-3:]
+            sub = alpha[:4] + alpha[-4:]
             seqs = itertools.product(sub, repeat=3)
         else:
             seqs = itertools.product(alpha, repeat=2)
